@@ -136,7 +136,7 @@ def run():
     H.parts['oracle_fold_equals_text_paths'] = info['fold_paths']
 
     bases = ['http://a/b/c/d;p?q', 'http://a', 'http://a/', 'http://a/b/c/', 'http://a/b', 'http://a?q',
-             'http://u:pw@a:8080/b/c?q=1#f', 'http://[::1]/b/c']
+             'http://u:pw@a:8080/b/c?q=1#f', 'http://[::1]/b/c', 'http://a/b?tag=a&page=2&tag=b']
     if H.thorough:
         bases += ['http://a/b//c', 'https://a/b/c/d/e/f', 'ftp://a/b?x=1&x=2', 'x://a/b']
     n = 6 if H.thorough else 4
